@@ -293,7 +293,11 @@ def run_args(ctx):
     maxlen = ctx.params["maxlen"]
     i = 0
     extra = ["..", "./", "a/..", "/..", "../a", "%2e", "%2E%2e/", ".%2e", "\ud800", ".\ud800.", "é", " ", "\x00", "\t.", "..;", "a" * 300, "." * 300, "/" * 300, "1" * 300, ":" * 64, "[::1]", "[v1.x]", "::1", "1.2.3.4", "%25", "%zz",
-             "::1%]:", "::1%a]:x", "::1%@b", "::1%a/b", "::1%?", "::1%#f", "1.2.3.4%@evil1", "::%@", "::1%[", "fe80::1%eth0", "::1%a b", "::1%\xe9", "%41", "%e4%b8%80", "%2e1", "%41:81", "%", "%1"]
+             "::1%]:", "::1%a]:x", "::1%@b", "::1%a/b", "::1%?", "::1%#f", "1.2.3.4%@evil1", "::%@", "::1%[", "fe80::1%eth0", "::1%a b", "::1%\xe9", "%41", "%e4%b8%80", "%2e1", "%41:81", "%", "%1",
+             # text that is a TEMPLATE for one of Python's formatting mini-languages (error messages are built from the argument)
+             "{}", "{0}", "a{b}c", "{host}.example.com", "x{0.real}y", "{!r}{}{}", "{0[0]}", "{:>99999999999}", "%s", "%(a)s", "%d%d", "%*d", "${x}", "\\N{BULLET}", "{", "}", "{{}}", "{0!z}",
+             # invalid punycode / odd A-labels (the decoders' error paths)
+             "xn--0.com", "xn--zz", "xn--a.example", "www.xn--999999999.org", "xn--", "XN--0", "xn--\u00e9"]
     texts = ("".join(t) for L in range(0, maxlen + 2) for t in itertools.product(ALPHA, repeat=L))
     n4 = len(ALPHA) ** maxlen
     for t in itertools.chain(extra, texts):
